@@ -1,4 +1,6 @@
 """C20 Build configurations"""
+import evlm
+import esort
 import eeval
 import ecfg
 import eunits
@@ -34,4 +36,15 @@ def run(ctx):
                 "sat_count, pick_cube*) to the sequential type: the item of the same name with the parameters in order.")
     nd = eeval.check_mt_delegations(ctx, F)
     ctx.floor("E-WRAP.delegate", "forwarding methods of the MT function types", nd, 15)
+    ctx.explain("E-PERM (+ .blocked, .relabel): the worker count selects between the sequential and the concurrent reordering path "
+                "(set_var_order): the concurrent bubble sort's position-blocking protocol (typestate analysis of every path of "
+                "the worker loop) and the parallel relabelling pass are necessary for both paths to reach the same order.")
+    esort.run(ctx, F)
+    esort.check_blocked(ctx, F)
+    esort.check_relabel_worklist(ctx, F)
+    ctx.explain("E-VLM: the managers' variable <-> level maps stay mutually inverse permutations: extend appends the identity "
+                "(new variables at the new bottom levels), swap_levels exchanges exactly two levels in both vectors, lookups read "
+                "their own vector; the index-based and the pointer-based manager's copies are the same program.")
+    nv = evlm.run(ctx, F)
+    ctx.floor("E-VLM", "interpreted VarLevelMap situations", nv, 38)
     ctx.not_decided = "observational equivalence of results and node counts across configurations"
